@@ -671,6 +671,38 @@ func c01Gen(g *Gen) {
 	emit(&c01Case{rules: []c01Rule{mkRule("r", []string{"a"}, c01St("k", V(3)), false), mkRule("q", []string{"a"}, c01St("k", V(4)), false)},
 		scope: globalScope, events: []c01Event{ev("e", "a", c01St("k", V(8))), ev("e", "a", c01St("k", V(10))), ev("e", "a", c01St("k", V(9)))}}, "corpus")
 
+	// ---- the cache key must be injective in the kind: kinds whose segments contain the separator, a blank,
+	// a quote, a bracket; no segment vs one empty segment — each pair in both orders, the non-triggering
+	// kind first is the harmful one (a cached "no" would skip the event that fires)
+	kindPairs := []struct {
+		rule string
+		a, b []string // b matches the rule, a does not, yet a careless key maps both to one entry
+	}{
+		{"core.main", []string{"core.main"}, []string{"core", "main"}},
+		{"a.b.c", []string{"a.b", "c"}, []string{"a", "b", "c"}},
+		{"a.b.c", []string{"a", "b.c"}, []string{"a", "b", "c"}},
+		{"", []string{}, []string{""}},
+		{".", []string{""}, []string{"", ""}},
+		{".", []string{"."}, []string{"", ""}},
+		{"a.b", []string{"a b"}, []string{"a", "b"}},
+		{"a.b", []string{`a" "b`}, []string{"a", "b"}},
+		{"a.b", []string{"a,b"}, []string{"a", "b"}},
+		{"a.b", []string{"a] [b"}, []string{"a", "b"}},
+		{"*.b", []string{"a.b"}, []string{"a", "b"}},
+	}
+	for _, kp := range kindPairs {
+		for _, mode := range []string{"w", "a"} {
+			for order := 0; order < 2; order++ {
+				first, second := kp.a, kp.b
+				if order == 1 {
+					first, second = kp.b, kp.a
+				}
+				emit(&c01Case{mode: mode, rules: []c01Rule{mkRule("r", []string{kp.rule}, nil, true)}, scope: globalScope,
+					events: []c01Event{{name: "e", kind: first}, {name: "f", kind: second}, {name: "e", kind: first}}}, "corpus-cache-key")
+			}
+		}
+	}
+
 	// ---- rules added between events: Finish, AddRule, Start, AddEvent (the cache must be dropped)
 	rAB, rAs, rB := mkRule("r0", []string{"a.b"}, nil, true), mkRule("r1", []string{"a.*"}, nil, true), mkRule("r2", []string{"b"}, nil, true)
 	rSup := mkRule("r3", []string{"a.b"}, nil, true)
